@@ -55,11 +55,26 @@ def tree_hash(repo=None):
     return h.hexdigest()[:20]
 
 
+def _target_dir():
+    """cargo target directory of the extraction: one per lane when QV_TARGET_DIR is set (parallel sweeps over scratch copies), else the shared one under .cache"""
+    return os.environ.get("QV_TARGET_DIR") or os.path.join(CACHE, "target")
+
+
 def _lock():
     os.makedirs(CACHE, exist_ok=True)
-    fh = open(os.path.join(CACHE, "extract.lock"), "w")
+    t = os.environ.get("QV_TARGET_DIR")
+    fh = open(os.path.join(t, "extract.lock") if t and os.path.isdir(t) else os.path.join(CACHE, "extract.lock"), "w")
     fcntl.flock(fh, fcntl.LOCK_EX)
     return fh
+
+
+def _touch(d):
+    """least-recently-USED pruning: a cache entry that is read is as fresh as one that is written (the entry of /repo itself must survive a sweep over scratch copies)"""
+    try:
+        if os.path.isdir(d):
+            os.utime(d, None)
+    except OSError:
+        pass
 
 
 def _prune(keep):
@@ -83,12 +98,13 @@ def src_facts(repo=None):
     h = tree_hash(repo)
     d = os.path.join(CACHE, "facts", h)
     out = os.path.join(d, "src.json")
+    _touch(d)
     if not os.path.exists(out):
         lk = _lock()
         try:
             if not os.path.exists(out):
                 os.makedirs(d, exist_ok=True)
-                tmp = out + ".tmp"
+                tmp = out + ".tmp%d" % os.getpid()
                 r = subprocess.run([SRCFACTS, os.path.join(repo, "src"), tmp], capture_output=True, text=True)
                 if r.returncode != 0 or not os.path.exists(tmp):
                     raise FactError("srcfacts failed (does /repo parse?): " + r.stderr[-2000:])
@@ -133,16 +149,17 @@ def mir_facts(repo=None, features=None):
     d = os.path.join(CACHE, "facts", h)
     tag = "" if not features else "-" + features.replace(",", "_")
     out = os.path.join(d, "mir%s.json" % tag)
+    _touch(d)
     if not os.path.exists(out):
         lk = _lock()
         try:
             if not os.path.exists(out):
                 os.makedirs(d, exist_ok=True)
-                target = os.path.join(CACHE, "target")
+                target = _target_dir()
                 os.makedirs(target, exist_ok=True)
                 for fp in glob.glob(os.path.join(target, "debug", ".fingerprint", "qrlew-*")):
                     shutil.rmtree(fp, ignore_errors=True)
-                tmp = out + ".part"
+                tmp = out + ".part%d" % os.getpid()
                 if os.path.exists(tmp):
                     os.remove(tmp)
                 env = dict(os.environ)
